@@ -344,11 +344,17 @@ def r3(chk, prog, variant):
                 writers.setdefault(root, set()).add(f.name)
                 sites.setdefault(root, []).append(i)
     n = 0
+    atomic_only = set()
     for gname, fns in sorted(writers.items()):
         n += 1
         allowed = GLOBAL_WRITERS.get(gname)
         loc = sites[gname][0].locstr()
-        if allowed is None:
+        if allowed is None and all(x.op in ("cmpxchg", "atomicrmw") and (x.x.get("ordering") in ("seq_cst", ["seq_cst", "seq_cst"], ["seq_cst"]) or "seq_cst" in x.raw) for x in sites[gname]):
+            # not a listed configuration global, but every write is a seq_cst atomic read-modify-write (a value published once,
+            # like the hash seed under whatever name it has): no plain store can race with a reader
+            atomic_only.add(gname)
+            chk.proven(rid, ",".join(sorted(fns)), "write @%s" % gname, loc, "written only by seq_cst atomic read-modify-write instructions", variant=variant)
+        elif allowed is None:
             chk.refuted(rid, ",".join(sorted(fns)), "write @%s" % gname, loc,
                         "global @%s is written by %s but is not in the inventory of shared state the library may modify"
                         % (gname, sorted(fns)), variant=variant)
@@ -364,7 +370,7 @@ def r3(chk, prog, variant):
     by_name = {}
     for f in prog.all_functions():
         by_name.setdefault(f.name, f)
-    writer_fns = {fn for g, fns in writers.items() if g != "lh_char_hash.random_seed" for fn in fns}
+    writer_fns = {fn for g, fns in writers.items() if g != "lh_char_hash.random_seed" and g not in atomic_only for fn in fns}
     for e in HOT_ENTRIES:
         f = prog.fn(e)
         chk.require(f is not None, "entry point %s not found" % e)
